@@ -25,7 +25,7 @@ RULE = (
     "one evaluation = one seeded history of 5-40 ownership operations over 2-3 projects and a pool of free modules / "
     "patterns (attach_module, new_module, += with modules, patterns and lists, attach twice, attach an object owned by "
     "another project, attach_pattern with pattern / clone / None, note.mod get/set for module numbers at modules, gaps, "
-    "zero and beyond the end, save -> restart -> load incl. files with module sections blanked to SEND and files whose "
+    "zero and beyond the end, export of an attached module as a Synth (complete / write fault / abandoned writer), save -> restart -> load incl. files with module sections blanked to SEND and files whose "
     "module records had the exists bit of their stored flags word cleared / zeroed); after every op "
     "the index/parent/output invariant and the slot model are checked on every project. non-trivial = at least one "
     "refused foreign attach or one gap-filling attach or one restart occurred; distinct = distinct op lists"
@@ -225,6 +225,7 @@ def execute(case):
     log = []
     interesting = False
     fired_reflag = [0]
+    fired_export = [0]
     for i, op in enumerate(case["ops"]):
         k = op["k"]
         if k == "bgload":
@@ -477,6 +478,46 @@ def execute(case):
                     mp.module = (v >> (8 + 5 * j)) % (len(p.modules) + 2)
                     mp.controller = (v >> (30 + 3 * j)) % 6
                 after = "wrap"
+            elif k == "export":
+                # an attached module is exported as a .sunsynth while it stays where it is: Synth(module).write_to()
+                # completes, is cut short by a write fault, or its chunks() writer is abandoned half way.
+                # Nothing about ownership may change (checked by the invariants and by the model below)
+                from rv.synth import Synth
+                from ..simio import SimFile, SimCancel
+
+                own = [kk for kk in w.slots[pi] if kk is not None and kk[0] != "out"]
+                if not own:
+                    log.append((i, k, "export", "skip", 0))
+                    continue
+                m = w.mods[own[op.get("m", 0) % len(own)]]
+                before_o = ownership_snapshot(w)
+                syn = Synth(m)
+                mode = op.get("mode", 0) % 3
+                after = "export:" + ("complete", "write_fault", "abandoned")[mode]
+                if mode == 2:
+                    gen = syn.chunks()
+                    for _ in range(1 + op.get("at", 0) % 60):
+                        if next(gen, None) is None:
+                            break
+                    if op.get("close"):
+                        gen.close()
+                    del gen
+                else:
+                    faults = [] if mode == 0 else [{"kind": ("write_eio", "write_enospc", "write_cancel")[op.get("at", 0) % 3], "at": op.get("at", 0) % 150}]
+                    ctx = Ctx(faults)
+                    out_ = SimFile(ctx, 0, b"", "arg", "w")
+                    ctx.streams.append(out_)
+                    try:
+                        syn.write_to(out_)
+                    except (OSError, SimCancel):
+                        if not ctx.fired:
+                            raise
+                    if ctx.fired:
+                        fired_export[0] += 1
+                del syn
+                probes["module_exported_while_attached"] = probes.get("module_exported_while_attached", 0) + 1
+                if ownership_snapshot(w) != before_o:
+                    violations.append(_v("export_changes_nothing", after=after, detail={"op": i}))
             elif k == "save_load":
                 interesting = True
                 types_before = [type(m).__name__ if m is not None else None for m in p.modules]
@@ -594,7 +635,7 @@ def execute(case):
         log.append((i, k, after, outcome, st))
     return {
         "violations": violations,
-        "fired": {"refused_foreign_attach": probes.get("foreign_module_attach", 0) + probes.get("foreign_pattern_attach", 0), "restart": sum(1 for x in log if x[1] == "save_load"), "stored_flag_bytes_cleared": fired_reflag[0]},
+        "fired": {"refused_foreign_attach": probes.get("foreign_module_attach", 0) + probes.get("foreign_pattern_attach", 0), "restart": sum(1 for x in log if x[1] == "save_load"), "stored_flag_bytes_cleared": fired_reflag[0], "synth_export_write_fault": fired_export[0]},
         "probes": probes,
         "nontrivial": [seeds.h64(case["ops"])] if interesting else [],
         "states": states,
@@ -607,7 +648,7 @@ def execute(case):
 def generate(seed, i, tier="quick"):
     r = seeds.rng(seed, "c14hist", i)
     ops = [{"k": "setup", "n": r.randrange(2), "files": [r.choice([None, None, r.randrange(6)]) for _ in range(3)]}]
-    kinds = ["wrap", "twin_meta", "new", "new", "new_module", "new_module", "attach", "attach", "attach", "iadd", "iadd_list", "attach_pattern", "attach_pattern", "note_mod", "note_mod", "save_load", "newpat"]
+    kinds = ["wrap", "twin_meta", "new", "new", "new_module", "new_module", "attach", "attach", "attach", "iadd", "iadd_list", "attach_pattern", "attach_pattern", "note_mod", "note_mod", "save_load", "newpat", "export"]
     for _ in range(r.randint(5, 40)):
         k = r.choice(kinds)
         op = {"k": k, "p": r.randrange(3)}
@@ -626,6 +667,8 @@ def generate(seed, i, tier="quick"):
             op.update(l=r.randrange(4), t=r.randrange(3))
         elif k == "note_mod":
             op.update(pat=r.randrange(100), l=r.randrange(8), t=r.randrange(8), mode=r.choice([0, 0, 0, 1, 2]), sel=r.randrange(52), num=r.randrange(1000), m=r.randrange(1000))
+        elif k == "export":
+            op.update(m=r.randrange(1000), mode=r.randrange(3), at=r.choice([0, 1, 2, 5, 7, 10, 20, r.randrange(150)]), close=r.random() < 0.5)
         elif k == "save_load":
             op["gaps"] = r.getrandbits(30) if r.random() < 0.6 else 0
             if r.random() < 0.4:
